@@ -66,6 +66,9 @@ impl Args {
 
 fn install_panic_hook() {
     std::panic::set_hook(Box::new(|info| {
+        // the hook is the program's code even when the panic starts inside a library call
+        // (a failing Clone inside make_mut): what it allocates is not the library's
+        let prev = alloc::enter_user();
         let loc = info.location().map(|l| format!("{}:{}", l.file(), l.line())).unwrap_or_default();
         if std::env::var_os("VH_DEBUG").is_some() {
             eprintln!("PANIC {}", info);
@@ -73,6 +76,7 @@ fn install_panic_hook() {
         let _ = world::try_with(|w| {
             w.last_panic_msg = Some(loc);
         });
+        alloc::restore(prev);
     }));
 }
 
